@@ -828,6 +828,41 @@ cleanup:
 	return res;
 }
 
+static int copyAggregationHashChain(KSI_CTX *ctx, KSI_AggregationHashChain *chain, KSI_AggregationHashChain **copy) {
+	int res = KSI_UNKNOWN_ERROR;
+	KSI_TLV *tlv = NULL;
+	KSI_AggregationHashChain *tmp = NULL;
+
+	if (ctx == NULL || chain == NULL || copy == NULL) {
+		res = KSI_INVALID_ARGUMENT;
+		goto cleanup;
+	}
+
+	res = KSI_TLV_new(ctx, 0x0801, 0, 0, &tlv);
+	if (res != KSI_OK) goto cleanup;
+
+	res = KSI_TlvTemplate_construct(ctx, tlv, chain, KSI_TLV_TEMPLATE(KSI_AggregationHashChain));
+	if (res != KSI_OK) goto cleanup;
+
+	res = KSI_AggregationHashChain_new(ctx, &tmp);
+	if (res != KSI_OK) goto cleanup;
+
+	res = KSI_TlvTemplate_extract(ctx, tmp, tlv, KSI_TLV_TEMPLATE(KSI_AggregationHashChain));
+	if (res != KSI_OK) goto cleanup;
+
+	*copy = tmp;
+	tmp = NULL;
+
+	res = KSI_OK;
+
+cleanup:
+
+	KSI_AggregationHashChain_free(tmp);
+	KSI_TLV_free(tlv);
+
+	return res;
+}
+
 int KSI_SignatureBuilder_openFromAggregationResp(const KSI_AggregationResp *resp, KSI_SignatureBuilder **builder) {
 	int res;
 	KSI_TLV *tmpTlv = NULL;
@@ -936,7 +971,14 @@ int KSI_SignatureBuilder_openFromAggregationResp(const KSI_AggregationResp *resp
 				goto cleanup;
 			}
 
-			res = KSI_AggregationHashChainList_append(aggrChainListRef, (ref = KSI_AggregationHashChain_ref(chain)));
+			/* The root level is added to the chain in place: the signature gets its own copy, the response stays as received. */
+			res = copyAggregationHashChain(ctx, chain, &ref);
+			if (res != KSI_OK) {
+				KSI_pushError(ctx, res, NULL);
+				goto cleanup;
+			}
+
+			res = KSI_AggregationHashChainList_append(aggrChainListRef, ref);
 			if (res != KSI_OK) {
 				KSI_AggregationHashChain_free(ref);
 				KSI_pushError(ctx, res, NULL);
